@@ -102,9 +102,9 @@ func (u *Unit) execAppend(p *Path, x *ssa.Call) {
 	}
 	c := enc.cellsComp(enc.SortOf(st.Elem()))
 	k := enc.Sel("sl_len", vs)
-	arr, off, ln, cp := enc.Sel("sl_arr", s), enc.Sel("sl_off", s), enc.Sel("sl_len", s), enc.Sel("sl_cap", s)
+	arr, off, ln, cp := enc.Sel("sl_arr", s), IntLit(0), enc.Sel("sl_len", s), enc.Sel("sl_cap", s)
 	cells := p.st.Get(u.cx, c.Name)
-	varr, voff := enc.Sel("sl_arr", vs), enc.Sel("sl_off", vs)
+	varr, voff := enc.Sel("sl_arr", vs), IntLit(0)
 	kConst := -1
 	if k.Op == "#int" {
 		fmt.Sscan(k.Lit, &kConst)
